@@ -32,6 +32,21 @@ ANCHORS = {
 }
 
 
+# Anchors that the workload calls *directly* through the public API (or, for C18/C19, the types whose
+# accessors / conversions the monitor itself invokes). Only these can make a run inconclusive: if one of
+# them is present in the binary and was never executed, the workload did not do its job. The other
+# anchors are internal helpers and helper types (get_mctp_control_packet, finalise, PCIMessageFormat ...):
+# a refactor may stop using them (benign/C08-g builds the vendor header with to_be_bytes and leaves the
+# bitfield views unused), so an unexecuted helper is recorded (`unreached_helpers`) but not judged.
+DIRECT = {
+    "decode_packet", "process_packet", "get_length", "set_endpoint_id", "allocate_endpoint_ids", "routing_information_update",
+    "query_hop", "resolve_uuid", "get_endpoint_id", "get_endpoint_uuid", "get_mctp_version_support", "get_message_type_suport",
+    "get_vendor_defined_message_support", "vendor_defined", "generate_control_packet_bytes", "generate_pci_msg_packet_bytes",
+    "generate_iana_msg_packet_bytes", "generate_spdm_msg_packet_bytes", "set_eid", "get_eid", "set_uuid",
+}
+DIRECT_PROPS = {"C18", "C19"}  # every anchor of these is exercised directly by the monitor
+
+
 def main():
     prop, src, out = sys.argv[1:4]
     data = json.load(open(src))["data"][0]
@@ -52,7 +67,13 @@ def main():
         cov += s["covered"]
     res = {
         "anchored_functions": anchors,
-        "unreached_anchors": sorted(k for k, v in anchors.items() if v["executions"] == 0),
+        # present in the binary but never executed: the workload missed the mechanism -> inconclusive
+        "unreached_anchors": sorted(k for k, v in anchors.items() if v["functions"] > 0 and v["executions"] == 0 and (k in DIRECT or prop in DIRECT_PROPS)),
+        "unreached_helpers": sorted(k for k, v in anchors.items() if v["functions"] > 0 and v["executions"] == 0 and not (k in DIRECT or prop in DIRECT_PROPS)),
+        # no function of that name in this tree (renamed / removed by a refactor, or a generic that is
+        # never instantiated): nothing to reach; recorded, not judged - the per-check floors on oracle
+        # evaluations and observed classes still guard against a workload that does nothing
+        "absent_anchors": sorted(k for k, v in anchors.items() if v["functions"] == 0),
         "library_line_coverage": {"lines": tot, "covered": cov, "files": files},
         "note": "cov build of the harness (-Cinstrument-coverage), this property's quick-sized workload at scale 0.1; counts include inlined instantiations reported by llvm-cov",
     }
